@@ -137,6 +137,20 @@ func (g *docgen) element(depth int) {
 }
 
 // skip records whitespace that precedes a tag closer and is covered by no token
+// boundaryLength: one content in forty is padded to a length next to a multiple of 4096 (the sizes of blocks in which a
+// scanner may search for the closing delimiter): the delimiter then starts on the last bytes of a block
+func (g *docgen) boundaryLength(s string) string {
+	if rapid.IntRange(0, 39).Draw(g.t, "boundarylen") != 0 {
+		return s
+	}
+	n := rapid.SampledFrom([]int{4093, 4094, 4095, 4096, 4097, 8190, 8191, 8192, 8193, 12286, 12287}).Draw(g.t, "contentlen")
+	if len(s) >= n {
+		return s
+	}
+	g.classes["boundary-length"] = true
+	return strings.Repeat("d", n-len(s)) + s
+}
+
 func (g *docgen) skip(ws string) {
 	g.pre[len(g.toks)-1] = ws
 }
@@ -174,6 +188,7 @@ func (g *docgen) content(depth, n int) {
 			if strings.HasSuffix(s, "-") {
 				s += " "
 			}
+			s = g.boundaryLength(s)
 			g.toks = append(g.toks, tok{xml.CommentToken, "<!--" + s + "-->", s, noVal})
 			g.classes["comment"] = true
 			lastText = false
@@ -186,6 +201,7 @@ func (g *docgen) content(depth, n int) {
 			for strings.Contains(s, "]]>") {
 				s = strings.ReplaceAll(s, "]]>", "]] >")
 			}
+			s = g.boundaryLength(s)
 			g.toks = append(g.toks, tok{xml.CDATAToken, "<![CDATA[" + s + "]]>", s, noVal})
 			g.classes["cdata"] = true
 			lastText = false
